@@ -22,7 +22,7 @@ def run(prop, tier, seed, t0):
     R.run_sharded(res, exes[0], ['side=2'], n_l, label='h_c06/asan', variant='asan')
     R.run_sharded(res, exes[1], ['side=2'], n_l, label='h_c06/plain', variant='plain', first=n_l)
     cov = {
-        'inputs_with_short_matches_plus_one_giant_match': res.stat('giant_match_stratum_inputs'), 'dense_windows_over_table_descriptions': res.stat('dense_windows_over_table_descriptions'), 'longest_table_description_bytes': res.maxes.get('longest_table_description', 0), 'dense_capacity_sweep_frames': res.stat('dense_frames'), 'dense_capacity_sweep_runs': res.stat('dense_sweep_runs'), 'dense_sweep_frame_kinds': res.cells.get('dense_kind', {}),
+        'inputs_with_short_matches_plus_one_giant_match': res.stat('giant_match_stratum_inputs'), 'dense_windows_over_table_descriptions': res.stat('dense_windows_over_table_descriptions'), 'longest_table_description_bytes': res.maxes.get('longest_table_description', 0), 'skippable_writer_reader_capacity_runs': res.stat('skippable_capacity_runs'), 'dense_capacity_sweep_frames': res.stat('dense_frames'), 'dense_capacity_sweep_runs': res.stat('dense_sweep_runs'), 'dense_sweep_frame_kinds': res.cells.get('dense_kind', {}),
         'evaluations': res.stat('compress_capacity_runs') + res.stat('decode_capacity_runs') + res.stat('inplace_runs') + res.stat('invalid_frame_runs'),
         'distinct_nontrivial': res.ncells('capclass') + res.ncells('dcapclass'),
         'rule': 'per input x parameter vector x entry point: reference run at ZSTD_compressBound gives n and (via R events) header and block end offsets; capacities = {0..20} u {header end..+4} u {block ends +-1,+-2} u {n-3..n+3} u {bound-1,bound,bound+1} u random, '
